@@ -393,12 +393,19 @@ fn enumerate(_tier: Tier, idx: u32, of: u32, cx: &mut Cx) -> CaseResult {
     for (name, (opts, tree)) in [
         ("many-hunks", crate::probes::many_hunks_tree(10_012)),
         ("big-blocks", crate::probes::big_blocks_tree()),
+        ("over-default-hunk", crate::probes::over_default_hunk_tree()),
     ] {
         crate::engine::heartbeat();
+        let t0 = std::time::Instant::now();
         let sub = cx.dir(name);
         std::fs::create_dir_all(&sub).unwrap();
-        let mut cx2 = crate::engine::sub_cx(cx, sub);
-        run(&Case::Single { opts, tree }, &mut cx2).map_err(|mut f| {
+        let mut cx2 = crate::engine::sub_cx(cx, sub.clone());
+        let r = run(&Case::Single { opts, tree }, &mut cx2);
+        crate::engine::force_remove(&sub);
+        if std::env::var("VERIF_TIMING").is_ok() {
+            eprintln!("C13 probe {name}: {:?}", t0.elapsed());
+        }
+        r.map_err(|mut f| {
             f.signature = format!("{}/probe-{name}", f.signature);
             f.inner = serde_json::json!({"probe": name});
             f
